@@ -420,6 +420,23 @@ def oracle(c, stats):
         else:
             for k in comps:
                 want.append((("dx", "dy", "dz")[k], ob["from"], ob["to"], None))
+    idents = {}
+    dup = False
+    for ci, cl0 in enumerate(net0["clusters"]):
+        for oi, ob in enumerate(cl0["obs"]):
+            if cl0["k"] == "obs":
+                keys = [((ob["t"], cl0["from"], ob["bs"] if ob["t"] == "angle" else ob["to"], ob.get("fs")), None)]
+            elif cl0["k"] == "hdiff":
+                keys = [(("dh", ob["from"], ob["to"], None), None)]
+            elif cl0["k"] == "coords":
+                names = [k for k in ("x", "y", "z") if (k in ("x", "y") and "xy" in ob["dims"]) or (k == "z" and "z" in ob["dims"])]
+                keys = [((n, ob["id"], "", None), k) for k, n in enumerate(names)]
+            else:
+                keys = [((n, ob["from"], ob["to"], None), k) for k, n in enumerate(("dx", "dy", "dz"))]
+            for key, comp in keys:
+                if key in idents:
+                    dup = True
+                idents[key] = (ci, oi, comp)
     if sorted(map(str, flagged)) != sorted(map(str, want)):
         missing = [w for w in want if w not in flagged]
         extra = [f for f in flagged if f not in want]
@@ -431,28 +448,20 @@ def oracle(c, stats):
             fails.append("threshold.angular_not_excluded: positional misclosure above tol-abs=%s but not excluded: %s" % (tol_s, [w for w in missing if w[0] in ANG][:3]))
         if [w for w in extra if w[0] in ANG]:
             fails.append("threshold.angular_excluded: excluded although the positional misclosure is below tol-abs=%s: %s" % (tol_s, [w for w in extra if w[0] in ANG][:3]))
-        if [w for w in missing if w[0] not in ANG]:
-            fails.append("threshold.not_excluded: misclosure above tol-abs=%s but not flagged: %s" % (tol_s, [w for w in missing if w[0] not in ANG][:3]))
+        def correlated(w):
+            k = idents.get(w)
+            cl0 = net0["clusters"][k[0]] if k else None
+            return bool(cl0 and cl0.get("cov") and cl0["cov"]["band"] > 0)
+        miss_lin = [w for w in missing if w[0] not in ANG]
+        if [w for w in miss_lin if correlated(w)]:
+            # same root cause: test_abs_term() returns the homogenised absolute term as truth value; inside a correlated
+            # cluster it can be exactly zero although the misclosure is above tol-abs
+            fails.append("threshold.correlated_not_excluded: misclosure above tol-abs=%s but not excluded (correlated cluster): %s" % (tol_s, [w for w in miss_lin if correlated(w)][:3]))
+        if [w for w in miss_lin if not correlated(w)]:
+            fails.append("threshold.not_excluded: misclosure above tol-abs=%s but not flagged: %s" % (tol_s, [w for w in miss_lin if not correlated(w)][:3]))
         if [w for w in extra if w[0] not in ANG]:
             fails.append("threshold.excluded: flagged as outlying although the misclosure is below tol-abs=%s: %s" % (tol_s, [w for w in extra if w[0] not in ANG][:3]))
         # the equivalence below is checked against what gama really excluded
-        idents = {}
-        dup = False
-        for ci, cl0 in enumerate(net0["clusters"]):
-            for oi, ob in enumerate(cl0["obs"]):
-                if cl0["k"] == "obs":
-                    keys = [((ob["t"], cl0["from"], ob["bs"] if ob["t"] == "angle" else ob["to"], ob.get("fs")), None)]
-                elif cl0["k"] == "hdiff":
-                    keys = [(("dh", ob["from"], ob["to"], None), None)]
-                elif cl0["k"] == "coords":
-                    names = [k for k in ("x", "y", "z") if (k in ("x", "y") and "xy" in ob["dims"]) or (k == "z" and "z" in ob["dims"])]
-                    keys = [((n, ob["id"], "", None), k) for k, n in enumerate(names)]
-                else:
-                    keys = [((n, ob["from"], ob["to"], None), k) for k, n in enumerate(("dx", "dy", "dz"))]
-                for key, comp in keys:
-                    if key in idents:
-                        dup = True
-                    idents[key] = (ci, oi, comp)
         if dup or any(f not in idents for f in flagged):
             stats.label("flagged_not_identifiable")
             return fails
@@ -483,7 +492,7 @@ def oracle(c, stats):
     for name in got_removed:
         if name not in exp_removed:
             stats.label("other_point_removed")
-    if any(not f.startswith("threshold.angular_") for f in fails):
+    if any(not (f.startswith("threshold.angular_") or f.startswith("threshold.correlated_")) for f in fails):
         return fails
     # the approximate orientation of a direction set is the median over all its directions, also the excluded
     # ones: when deleting them moves the median so that another observation changes sides, the reduced input is
